@@ -840,6 +840,273 @@ Proof.
   intros inl. unfold run_item. rewrite E. reflexivity.
 Qed.
 
+(* ================= run level: a re-awaiting listener misses none ================= *)
+Section Reawait.
+Variable g : nat.
+
+(* g is a known listener whose script is `for(;;) co_await e;` *)
+Definition flags (s : st) : Prop :=
+  get (tab s) g <> None /\ l_limit (getl s g) = O /\ l_pause (getl s g) = false.
+
+Lemma flags_tab s s' : tab s' = tab s -> flags s -> flags s'.
+Proof. intros T (N & L & P). unfold flags, getl in *. rewrite T. repeat split; assumption. Qed.
+
+Lemma flags_setl s i l : l_limit l = l_limit (getl s i) -> l_pause l = l_pause (getl s i) -> flags s -> flags (setl s i l).
+Proof.
+  intros EL EP (N & L & P). destruct (Nat.eq_dec i g) as [->|NE]; unfold flags.
+  - rewrite getl_setl_same. split; [|split; congruence].
+    unfold setl, set_tab; cbn [tab]. rewrite get_put_same. discriminate.
+  - rewrite getl_setl_other by exact NE. split; [|split; assumption].
+    unfold setl, set_tab; cbn [tab]. rewrite get_put_other by exact NE. exact N.
+Qed.
+Ltac fs := apply flags_setl; [reflexivity | first [reflexivity | cbn [l_pause]; congruence] | assumption].
+
+Lemma flags_setl_other s i l : i <> g -> flags s -> flags (setl s i l).
+Proof.
+  intros NE (N & L & P). unfold flags. rewrite getl_setl_other by exact NE. split; [|split; assumption].
+  unfold setl, set_tab; cbn [tab]. rewrite get_put_other by exact NE. exact N.
+Qed.
+
+Lemma co_await_e_flags r : forall i s s' e, co_await_e r i s = (s', e) -> flags s -> flags s'.
+Proof.
+  induction r as [|r IH]; intros i s s' e E F; cbn [co_await_e] in E; destruct (alive s).
+  - inversion E; subst. exact (flags_tab _ _ eq_refl F).
+  - inversion E; subst. exact F.
+  - inversion E; subst. exact (flags_tab _ _ eq_refl F).
+  - destruct (co_await_e r i _) as [s2 e2] eqn:E2. inversion E; subst.
+    refine (IH _ _ _ _ E2 _). fs.
+Qed.
+
+Lemma co_resumed_flags i s s' e p : co_resumed i s = (s', e, p) -> flags s -> flags s'.
+Proof.
+  intros E F. unfold co_resumed in E. destruct (await_resume s).
+  - destruct (negb (Nat.eqb (l_limit (getl s i)) 0) && Nat.eqb (S (l_cnt (getl s i))) (l_limit (getl s i))).
+    + inversion E; subst. fs.
+    + destruct (l_pause (getl s i)) eqn:P.
+      * inversion E; subst. fs.
+      * destruct (co_await_e _ i _) as [s2 e2] eqn:E2. inversion E; subst.
+        refine (co_await_e_flags _ _ _ _ _ E2 _). fs.
+  - destruct (l_retry (getl s i)) as [|r'].
+    + inversion E; subst. exact F.
+    + destruct (co_await_e r' i _) as [s2 e2] eqn:E2. inversion E; subst.
+      refine (co_await_e_flags _ _ _ _ _ E2 _). fs.
+Qed.
+
+Lemma run_item_flags inl it s s' e : run_item inl it s = (s', e) -> flags s -> flags s'.
+Proof.
+  intros E F. destruct it as [i ready]. unfold run_item in E. destruct ready.
+  - destruct (co_resumed i s) as [[s1 e1] p] eqn:E1. pose proof (co_resumed_flags _ _ _ _ _ E1 F) as F1.
+    destruct p; [destruct inl|].
+    + destruct (co_await_e _ i s1) as [s2 e2] eqn:E2. inversion E; subst. exact (co_await_e_flags _ _ _ _ _ E2 F1).
+    + inversion E; subst. exact (flags_tab _ _ eq_refl F1).
+    + inversion E; subst. exact F1.
+  - exact (co_await_e_flags _ _ _ _ _ E F).
+Qed.
+
+Lemma drive_flags inl items : forall s s' e, drive inl items s = (s', e) -> flags s -> flags s'.
+Proof.
+  induction items as [|it t IH]; intros s s' e E F; cbn [drive] in E.
+  - inversion E; subst. exact F.
+  - destruct (run_item inl it s) as [s1 e1] eqn:E1. destruct (drive inl t s1) as [s2 e2] eqn:E2. inversion E; subst.
+    exact (IH _ _ _ E2 (run_item_flags _ _ _ _ _ E1 F)).
+Qed.
+
+Lemma cb_resume_flags i s s' e : cb_resume i s = (s', e) -> flags s -> flags s'.
+Proof.
+  intros E F. unfold cb_resume in E. destruct (negb (alive s)); [inversion E; subst; exact F|].
+  destruct (await_resume s); [|inversion E; subst; exact F].
+  destruct (Nat.eqb (l_limit (getl s i)) 0 || Nat.ltb (S (l_cnt (getl s i))) (l_limit (getl s i))); inversion E; subst.
+  - apply (flags_tab _ (setl s i _) eq_refl). fs.
+  - fs.
+Qed.
+
+Lemma walk_flags w : forall s s' e sp, walk w s = (s', e, sp) -> flags s -> flags s'.
+Proof.
+  induction w as [|[i cb] t IH]; intros s s' e sp E F; cbn [walk] in E.
+  - inversion E; subst. exact F.
+  - destruct cb.
+    + destruct (cb_resume i s) as [s1 e1] eqn:E1. destruct (walk t s1) as [[s2 e2] sp2] eqn:E2. inversion E; subst.
+      exact (IH _ _ _ _ E2 (cb_resume_flags _ _ _ _ E1 F)).
+    + destruct (walk t s) as [[s2 e2] sp2] eqn:E2. inversion E; subst. exact (IH _ _ _ _ E2 F).
+Qed.
+
+Lemma dispose_flags awaited sp s s' e : dispose awaited sp s = (s', e) -> flags s -> flags s'.
+Proof.
+  intros E F. unfold dispose in E. destruct (negb (m_coro s)); [exact (drive_flags _ _ _ _ _ E F)|].
+  destruct (negb awaited); [inversion E; subst; exact (flags_tab _ _ eq_refl F)|].
+  destruct sp; [inversion E; subst; exact F|].
+  exact (drive_flags _ _ _ _ _ E (flags_tab _ s eq_refl F)).
+Qed.
+
+Lemma in_cos_of c : In (g, false) c -> In g (cos c).
+Proof.
+  intros I. unfold cos. apply in_map_iff. exists (g, false). split; [reflexivity|]. apply filter_In. split; [exact I|reflexivity].
+Qed.
+Lemma co_grow_in c c' x : co_grow c c' -> In x (cos c) -> In x (cos c').
+Proof. intros (d & -> & _) I. rewrite cos_app. apply in_or_app. right. exact I. Qed.
+Lemma co_grow_in_raw c c' (x : nat * bool) : co_grow c c' -> In x c -> In x c'.
+Proof. intros (d & -> & _) I. apply in_or_app. right. exact I. Qed.
+
+(* when g's handle is among the resumed ones, g is back in the chain when they all have run *)
+Lemma drive_rejoins inl items : forall s v s' e, await_resume s = Some v -> flags s -> In (g, true) items ->
+  drive inl items s = (s', e) -> In (g, false) (chain s').
+Proof.
+  induction items as [|it t IH]; intros s v s' e AR F I E; [destruct I|].
+  cbn [drive] in E. destruct (run_item inl it s) as [s1 e1] eqn:E1. destruct (drive inl t s1) as [s2 e2] eqn:E2.
+  inversion E; subst. destruct I as [->|I].
+  - destruct F as (_ & L & P). destruct (reawait_rejoins s g v AR L P) as (sx & _ & C & _ & _ & _ & _ & R).
+    rewrite (R inl) in E1. inversion E1; subst.
+    destruct (drive_frame _ _ _ _ _ E2) as (_ & _ & G). apply (co_grow_in_raw _ _ _ G). rewrite C. left. reflexivity.
+  - destruct (run_item_live _ _ _ _ AR _ _ E1) as (SV & _).
+    refine (IH _ v _ _ _ (run_item_flags _ _ _ _ _ E1 F) I E2). rewrite (same_val_ar _ _ SV). exact AR.
+Qed.
+
+Lemma in_sp_order b l x : In x l -> In x (sp_order b l).
+Proof.
+  intros I. unfold sp_order. destruct b; [|exact I]. destruct l as [|a t]; [destruct I|].
+  assert (NE : a :: t <> []) by discriminate.
+  rewrite (app_removelast_last O NE) in I. apply in_app_or in I. destruct I as [I|[<-|[]]]; [right; exact I|left; reflexivity].
+Qed.
+
+Lemma paused_items_queue inl items : forall s s' e, not_ready items -> drive inl items s = (s', e) -> queue s' = queue s.
+Proof.
+  induction items as [|[i r] t IH]; intros s s' e N E; cbn [drive] in E; [inversion E; reflexivity|].
+  pose proof (N (i, r) (or_introl eq_refl)) as H. cbn in H. subst r. cbn [run_item] in E.
+  destruct (co_await_e _ i s) as [s1 e1] eqn:E1. destruct (drive inl t s1) as [s2 e2] eqn:E2. inversion E; subst.
+  destruct (co_await_e_grow _ _ _ _ _ E1) as (_ & Q & _).
+  rewrite (IH _ _ _ (fun it I => N it (or_intror I)) E2). exact Q.
+Qed.
+
+Definition rinv (coro : bool) (s : st) : Prop :=
+  m_coro s = coro /\ flags s /\ (alive s = true -> In g (cos (chain s)) /\ not_ready (queue s)).
+
+(* the driver never discards the collector's result inside a coroutine *)
+Definition disc_op (coro : bool) (x : op) : Prop :=
+  match x with OEmit _ awaited _ => coro = false \/ awaited = true | _ => True end.
+
+Lemma alive_sv s s' : same_val s s' -> alive s' = true -> alive s = true.
+Proof. intros SV A. rewrite <- (same_val_alive _ _ SV). exact A. Qed.
+
+Lemma step_rinv coro s x s' o : step s x = (s', o) -> rinv coro s -> disc_op coro x ->
+  rinv coro s' /\
+  match x with OEmit _ _ v => o_st o = 0 -> In (g, emitted s v) (delivs (o_ev o)) | _ => True end.
+Proof.
+  intros E (MC & F & I) D. destruct x.
+  - (* spawn *) split; [|exact Logic.I]. cbn [step] in E. destruct (get (tab s) i) eqn:G; [inversion E; subst s' o; exact (conj MC (conj F I))|].
+    assert (NE : i <> g) by (intros ->; destruct F as (N & _); contradiction).
+    destruct (co_await_e retry i _) as [s2 e] eqn:E2. inversion E; subst s' o.
+    destruct (co_await_e_grow _ _ _ _ _ E2) as (SV & Q & _ & Gr).
+    split; [rewrite (sv_coro _ _ SV); exact MC|].
+    split; [exact (co_await_e_flags _ _ _ _ _ E2 (flags_setl_other _ _ _ NE F))|].
+    intros A. destruct (I (alive_sv _ _ SV A)) as (I1 & I2). split; [exact (co_grow_in _ _ _ Gr I1)|rewrite Q; exact I2].
+  - (* connect *) split; [|exact Logic.I]. cbn [step] in E. destruct (get (tab s) i) eqn:G; [inversion E; subst s' o; exact (conj MC (conj F I))|].
+    assert (NE : i <> g) by (intros ->; destruct F as (N & _); contradiction).
+    destruct (alive s) eqn:A.
+    + inversion E; subst s' o. split; [exact MC|]. split; [exact (flags_tab _ (setl s i _) eq_refl (flags_setl_other _ _ _ NE F))|].
+      intros _. destruct (I eq_refl) as (I1 & I2). split; [|exact I2]. cbn [chain subscribe set_chain setl set_tab]. rewrite cos_cons_t. exact I1.
+    + rewrite cb_resume_dead in E by exact A. inversion E; subst s' o.
+      split; [exact MC|]. split; [exact (flags_setl_other _ _ _ NE F)|]. intros A'. change (alive s = true) in A'. congruence.
+  - (* emit *)
+    destruct (o_st o =? 0) eqn:O.
+    + apply Z.eqb_eq in O. cbn [disc_op] in D.
+      assert (M : m_coro s = false \/ awaited = true) by (rewrite MC; exact D).
+      destruct (emit_shape _ _ _ _ _ _ E O) as (A & _ & s2 & e1 & sp & e2 & W & Di & Eo).
+      destruct (I A) as (I1 & I2).
+      destruct (broadcast _ _ _ _ _ _ E O M I2) as (B1 & _ & B3 & _).
+      split.
+      * pose proof (emit_ar s kind v [] A) as AR.
+        destruct (walk_live _ _ _ AR _ _ _ W) as (SV & Q & _ & _ & SP & _ & _).
+        assert (F2 : flags s2).
+        { apply (walk_flags _ _ _ _ _ W). apply (flags_tab s); [destruct (Nat.eqb kind 2); reflexivity|exact F]. }
+        assert (AR2 : await_resume s2 = Some (emitted s v)) by (rewrite (same_val_ar _ _ SV); exact AR).
+        assert (MC2 : m_coro s2 = m_coro s) by (rewrite (sv_coro _ _ SV); destruct (Nat.eqb kind 2); reflexivity).
+        assert (S2 : strong s2 = strong s) by (rewrite (sv_strong _ _ SV); destruct (Nat.eqb kind 2); reflexivity).
+        destruct (dispose_frame _ _ _ _ _ Di) as (SV3 & _ & _).
+        split; [rewrite (sv_coro _ _ SV3), MC2; exact MC|]. split; [exact (dispose_flags _ _ _ _ _ Di F2)|].
+        intros _. split; [|exact B3]. apply in_cos_of.
+        assert (Isp : In g sp) by (rewrite SP; exact I1).
+        unfold dispose in Di. rewrite MC2 in Di. destruct (m_coro s) eqn:MS; cbn [negb] in Di.
+        -- destruct M as [M|M]; [discriminate|]. subst awaited. cbn [negb] in Di.
+           destruct sp as [|a t] eqn:SPE; [destruct Isp|]. rewrite <- SPE in *.
+           assert (AR3 : await_resume (set_queue s2 []) = Some (emitted s v)) by exact AR2.
+           refine (drive_rejoins _ _ _ _ _ _ AR3 (flags_tab _ s2 eq_refl F2) _ Di).
+           assert (NE : sp <> []) by (rewrite SPE; discriminate).
+           rewrite (app_removelast_last 0%nat NE) in Isp. apply in_app_or in Isp. destruct Isp as [Isp|[<-|[]]].
+           ++ right. apply in_or_app. right. unfold ready_items. apply in_map_iff. exists g. split; [reflexivity|exact Isp].
+           ++ left. reflexivity.
+        -- refine (drive_rejoins _ _ _ _ _ _ AR2 F2 _ Di). unfold ready_items. apply in_map_iff. exists g. split; [reflexivity|exact Isp].
+      * intros _. rewrite B1. apply in_map_iff. exists g. split; [reflexivity|]. apply in_or_app. right. apply in_sp_order. exact I1.
+    + (* rejected *)
+      assert (R : s' = s).
+      { cbn [step] in E. destruct (negb (alive s) || _ || _ || _); [inversion E; reflexivity|].
+        destruct (notify _) as [[a b] c]. destruct (dispose awaited c a). inversion E; subst s' o. discriminate. }
+      subst s'. split; [exact (conj MC (conj F I))|]. intros O'. rewrite O' in O. discriminate.
+  - (* copy *) split; [|exact Logic.I]. cbn [step] in E. destruct (alive s) eqn:A; inversion E; subst s' o.
+    + split; [exact MC|]. split; [exact (flags_tab _ s eq_refl F)|]. intros _. exact (I eq_refl).
+    + split; [exact MC|]. split; [exact F|]. intros A'. rewrite A in A'. discriminate.
+  - (* drop *) split; [|exact Logic.I]. destruct (strong s) as [|[|k]] eqn:S.
+    + cbn [step] in E. rewrite S in E. inversion E; subst s' o. exact (conj MC (conj F I)).
+    + destruct (drop_last_shape _ _ _ S E) as (s3 & e2 & Di & -> & _).
+      destruct (dispose_frame _ _ _ _ _ Di) as (SV & _).
+      split; [cbn [m_coro set_val]; rewrite (sv_coro _ _ SV); exact MC|].
+      split; [apply (flags_tab _ s3 eq_refl); apply (dispose_flags _ _ _ _ _ Di); exact (flags_tab _ s eq_refl F)|].
+      intros A. exfalso. unfold alive in A. cbn [strong set_val] in A. rewrite (sv_strong _ _ SV) in A. discriminate.
+    + cbn [step] in E. rewrite S in E. inversion E; subst s' o.
+      split; [exact MC|]. split; [exact (flags_tab _ s eq_refl F)|]. intros _. apply I. unfold alive. rewrite S. reflexivity.
+  - (* pause *) split; [|exact Logic.I]. cbn [step] in E. destruct (m_coro s) eqn:MS; cbn [negb] in E; [|inversion E; subst s' o; split; [rewrite MS; exact MC|split; [exact F|exact I]]].
+    destruct (drive false (queue s) (set_queue s [])) as [s1 e] eqn:E1. inversion E; subst s' o.
+    destruct (drive_frame _ _ _ _ _ E1) as (SV & _ & Gr).
+    split; [rewrite (sv_coro _ _ SV); cbn [m_coro set_queue]; rewrite MS; exact MC|].
+    split; [exact (drive_flags _ _ _ _ _ E1 (flags_tab _ s eq_refl F))|].
+    intros A. assert (A0 : alive s = true) by exact (alive_sv _ _ SV A).
+    destruct (I A0) as (I1 & I2). split; [exact (co_grow_in _ _ _ Gr I1)|].
+    rewrite (paused_items_queue _ _ _ _ _ I2 E1). intros ? [].
+  - inversion E; subst s' o. split; [exact (conj MC (conj F I))|exact Logic.I].
+Qed.
+
+Fixpoint none_missed (s : st) (ops : list op) : Prop :=
+  match ops with
+  | [] => True
+  | x :: t =>
+      let r := step s x in
+      match x with OEmit _ _ v => o_st (snd r) = 0 -> In (g, emitted s v) (delivs (o_ev (snd r))) | _ => True end
+      /\ none_missed (fst r) t
+  end.
+
+Lemma reawait_run coro ops : forall s, rinv coro s -> Forall (disc_op coro) ops -> none_missed s ops.
+Proof.
+  induction ops as [|x t IH]; intros s R D; cbn [none_missed]; [exact Logic.I|].
+  inversion D as [|? ? D1 D2]; subst.
+  destruct (step s x) as [s1 o] eqn:E. destruct (step_rinv _ _ _ _ _ E R D1) as (R1 & P).
+  cbn [fst snd]. split; [destruct x; exact P|exact (IH _ R1 D2)].
+Qed.
+
+(* subscription establishes the invariant *)
+Lemma spawn_rinv s r s' o : alive s = true -> not_ready (queue s) -> get (tab s) g = None ->
+  step s (OSpawn g 0 false r) = (s', o) -> rinv (m_coro s) s' /\ o_ev o = [EAwait g].
+Proof.
+  intros A N G E. cbn [step] in E. rewrite G in E.
+  set (s1 := setl s g _) in E. assert (A1 : alive s1 = true) by exact A.
+  rewrite (co_await_e_alive _ _ _ A1) in E. inversion E; subst. split; [|reflexivity].
+  split; [reflexivity|]. split.
+  - unfold flags. change (getl (subscribe s1 g false) g) with (getl s1 g). unfold s1. rewrite getl_setl_same.
+    cbn [l_limit l_pause tab subscribe set_chain setl set_tab]. rewrite get_put_same. repeat split. discriminate.
+  - intros _. split; [left; reflexivity|exact N].
+Qed.
+End Reawait.
+
+(* A listener g that only re-awaits (`for(;;) co_await e;`), subscribed while the state is alive, and a driver that never
+   discards the collector's result inside a coroutine: whatever the driver and the other listeners do afterwards (any op
+   sequence, any scripts), every accepted collector call delivers its value to g in that very op. *)
+Theorem reawait_misses_none : forall g s r ops,
+  alive s = true -> not_ready (queue s) -> get (tab s) g = None ->
+  Forall (disc_op (m_coro s)) ops ->
+  none_missed g (fst (step s (OSpawn g 0 false r))) ops.
+Proof.
+  intros g s r ops A N G D. destruct (step s (OSpawn g 0 false r)) as [s1 o] eqn:E.
+  destruct (spawn_rinv g s r s1 o A N G E) as (R & _). exact (reawait_run g (m_coro s) ops s1 R D).
+Qed.
+
 (* ================= the refuted case (finding F-C15) ================= *)
 Lemma discard_overrun_witness :
   let ops := [OSpawn 1 0 false 0; OEmit 0 false 1; OEmit 0 false 2; OEmit 0 true 3; OPause] in
